@@ -50,6 +50,19 @@ def cases_(draw):
     elif gen.rare(draw, 180):
         # focused class 'numeric typing': integer and number columns side by side, steps that derive a type from them
         pkg = draw(gp.input_package(2, 3, types=['integer', 'number', 'number']))
+        if draw(st.booleans()):
+            # the same column names in every resource, integer in one and number in another
+            for ri, r in enumerate(pkg):
+                flds = r['fields'][:2] + [{'name': 'n1', 'type': 'integer' if ri == 0 else 'number'},
+                                          {'name': 'n2', 'type': draw(st.sampled_from(['integer', 'number']))}]
+                rows = []
+                for row in r['rows']:
+                    new = {'id': row['id'], 'g': row['g']}
+                    for f in flds[2:]:
+                        new[f['name']] = draw(st.integers(-9, 9)) if f['type'] == 'integer' else \
+                            decimal.Decimal(draw(st.integers(-99, 99))) / 4
+                    rows.append(new)
+                r['fields'], r['rows'] = flds, rows
         prog = draw(gp.programs(1, 4, kinds=['add_computed', 'join', 'add_computed', 'unpivot', 'add_computed', 'concatenate', 'join'],
                                 pkg=pkg, favour_mutators=False))
     elif gen.rare(draw, 170):
